@@ -2599,6 +2599,24 @@ class C06(Property):
             return v
         return walk(x)
 
+    @staticmethod
+    def _fails_fresh(case):
+        """does the case fail (other than by the known finding) in a newly started interpreter?"""
+        import json
+        import os
+        import subprocess
+        import sys
+        code = ("import sys, json\nfrom bv.common import ensure_repo_on_path\nensure_repo_on_path()\n"
+                "from bv.props.c06 import C06\np = C06('quick', 0)\nc = json.load(sys.stdin)\no = p.impl(c)\nf = p.oracle(c, o)\n"
+                "print('FAIL' if f is not None and not p.finding_qp_alias_reparses(c, f) else 'ok')\n")
+        here = os.path.dirname(os.path.dirname(os.path.dirname(os.path.abspath(__file__))))
+        try:
+            r = subprocess.run([sys.executable, '-c', code], input=json.dumps(case), capture_output=True, text=True, timeout=60,
+                               env=dict(os.environ, PYTHONPATH=here, PYTHONDONTWRITEBYTECODE='1'))
+        except Exception:
+            return False
+        return r.stdout.strip().endswith('FAIL')
+
     def shrink(self, case):
         k = case['k']
         if k in ('q', 'u', 'p', 'l'):
@@ -2611,15 +2629,19 @@ class C06(Property):
                 yield dict(case, t=t[:i] + t[i + 1:])
             return
         if k == 'h':
-            # whatever the earlier calls left behind in the module is still there: a candidate is only meaningful on
-            # texts the module has not seen yet -> every candidate gets a new salt
+            # whatever the failing run left behind in the module (a memo, a remembered argument) is still there, so in THIS
+            # process a candidate without the decisive earlier call would still look failing: candidates are tried in a
+            # fresh interpreter first, and only those that fail there are offered
             pre = case['pre']
             cands = [case['case']]               # without any history
             if len(pre) > 3:
                 cands += [dict(case, pre=pre[:len(pre) // 2]), dict(case, pre=pre[len(pre) // 2:])]
-            cands += [dict(case, pre=pre[:i] + pre[i + 1:]) for i in range(len(pre)) if len(pre) > 1]
+            if len(pre) > 1:
+                cands += [dict(case, pre=pre[:i] + pre[i + 1:]) for i in range(len(pre))][:12]
             for c in cands:
-                yield self._resalt(c)
+                c = self._resalt(c)
+                if self._fails_fresh(c):
+                    yield c
             return
         if k == 'd':
             steps = case['steps']
